@@ -67,6 +67,7 @@ type docGen struct {
 	blanksBetween  bool   // neighbouring inline elements are kept apart by a white-space text node between them (C03, C02, C09)
 	literalWords   bool   // words that are also element names, as the whole text of an inline element (C03)
 	litUsed        int    // how many of litMarkup this page has used
+	litStart       int    // the first of them
 	tightInline    bool   // words may continue across the edge of an inline element (C09)
 	mediaSeps      bool   // separator signs (text without a word) in front of media inside a line (C08)
 	noTitle        bool   // no <title> element (C09: the word-count clause needs pages without title)
@@ -366,7 +367,10 @@ func (g *docGen) render0(n *cnode) string {
 		if g.literalWords && g.rng.Intn(5) == 0 && g.litUsed < len(litMarkup) {
 			// an everyday word that happens to be the name of an element, as the whole text of an element of its own
 			// (each of them once per page: they are tracked like the unique words)
-			inner += " " + litMarkup[(g.litUsed+g.tok)%len(litMarkup)] + " "
+			if g.litUsed == 0 {
+				g.litStart = g.rng.Intn(len(litMarkup))
+			}
+			inner += " " + litMarkup[(g.litStart+g.litUsed)%len(litMarkup)] + " "
 			g.litUsed++
 		}
 		st := ""
